@@ -103,3 +103,25 @@ Definition no_tail_sampleb (p : pulse) : bool :=
   | CArr cf, Some tl => negb (length cf =? length tl)%nat || Qsame (last cf 0) 0
   | _, _ => true
   end.
+
+(* the Hamiltonians the analytic loop exponentiates, and what the property demands of them *)
+Section HamSlices.
+  Variable M : Type.
+  Variable madd : M -> M -> M.
+  Variable mscale : Q -> M -> M.
+  Variable drift : M.
+  Variable ops : list M.
+  Definition ham_slices (sl : list (Q * list Q)) : list (Q * M) :=
+    map (fun s => (fst s, lincomb M madd mscale drift (snd s) ops)) sl.
+  (* (dt_n, H_n) in time order: dt_n = T_n+1 - T_n and H_n = H(t) for every t in [T_n, T_n+1) *)
+  Inductive hslices_ok (fs : list (Q -> Q)) : list Q -> list (Q * M) -> Prop :=
+  | hs_nil : hslices_ok fs [] []
+  | hs_one : forall t, hslices_ok fs [t] []
+  | hs_cons : forall t1 t2 F dt H sl,
+      dt = t2 - t1 ->
+      (forall t, t1 <= t -> t < t2 -> H = H_of M madd mscale drift ops fs t) ->
+      hslices_ok fs (t2 :: F) sl ->
+      hslices_ok fs (t1 :: t2 :: F) ((dt, H) :: sl).
+End HamSlices.
+
+Definition total_time (sl : list (Q * list Q)) : Q := fold_right Qplus 0 (map fst sl).
